@@ -1492,7 +1492,7 @@ FormatterToXML::writeNormalizedChars(
             }
         }
         else if(isCData == true &&
-                i < end - 2 &&
+                end - i > 2 &&
                 XalanUnicode::charRightSquareBracket == c &&
                 XalanUnicode::charRightSquareBracket == ch[i + 1] &&
                 XalanUnicode::charGreaterThanSign == ch[ i + 2])
